@@ -67,6 +67,32 @@ def _cmp_label(a, b):
     return 0
 
 
+def _sort_key(data):
+    """Turn hash data into a key with a total order.
+
+    Integers compare as numbers, tuples item by item, anything else
+    (elements, strings, None) by its repr.
+    """
+    if isinstance(data, tuple):
+        return (2, tuple(_sort_key(d) for d in data))
+    if isinstance(data, int):
+        return (0, data)
+    return (1, repr(data))
+
+
+def _cmp_function_space(a, b):
+    """Cmp the function spaces of two form arguments."""
+    # Not by repr of the function space, that holds the mesh id as a
+    # string and "10" < "9"
+    V = a.ufl_function_space()
+    W = b.ufl_function_space()
+    if V == W:
+        return 0
+    x = (type(V).__name__, _sort_key(V._ufl_hash_data_()))
+    y = (type(W).__name__, _sort_key(W._ufl_hash_data_()))
+    return -1 if x < y else (0 if x == y else 1)
+
+
 def _cmp_coefficient(a, b):
     """Cmp coefficient."""
     # It's ok to compare relative counts for Coefficients,
@@ -77,7 +103,8 @@ def _cmp_coefficient(a, b):
     elif x > y:
         return 1
     else:
-        return 0
+        # Same count, still different unless the function spaces agree
+        return _cmp_function_space(a, b)
 
 
 def _cmp_argument(a, b):
